@@ -139,7 +139,7 @@ PROPS["C18"] = {
     "alarms": ["liveness-lost", "allocation-left", "txn-completion-race", "harness-died"],
     "rule": "regenerated obligations: xlate re-emits the lock skeleton of every function/closure touching a sync mutex (63 units, 26 lock ids), the call/guard "
             "skeleton of the request handlers and the AddPermission ordering facts from /repo's working tree on every run; the kernel re-checks balanced/guarded "
-            "by decide. Failing-input search / supporting run: H9 makes each lifecycle callback slow (1 s / 4 s virtual) and tears the allocation down during it by "
+            "by decide; the translator also derives, over the static call graph, which mutexes each function may take (callee summaries) and the kernel re-checks that the resulting lock-order graph (mutex held -> mutex taken, over every path, through calls) is acyclic (lock_order_acyclic). Failing-input search / supporting run: H9 makes each lifecycle callback slow (1 s / 4 s virtual) and tears the allocation down during it by "
             "each cause (expiry, Refresh 0, relay error, server close): 56 scenarios with liveness probe; H4 (real time) lets the response arrive / the client be closed while a "
             "retransmission's socket write is in progress and then fails: the transaction must complete exactly once (no goroutine left in WriteResult, no send on a closed channel); "
             "distinct = (callback, cause, delay) triples",
@@ -148,7 +148,8 @@ PROPS["C18"] = {
                                "soundness theorem of the checker (balanced_sound, chk_no_fault) is proved once for all programs"],
     "assumptions": ["PARTIAL: data-race freedom in the sense of the Go memory model and scheduler-dependent deadlock outside the modelled mutexes are outside any Lean model; "
                     "the guarded/balanced skeleton theorems are the provable core, H9 and the race detector are supporting evidence only",
-                    "lock-order acyclicity across functions is not yet derived (no callee summaries in the lock skeleton)"],
+                    "lock order: mutexes are identified per struct field (all instances together), calls through interfaces, function values and goroutine starts are not followed "
+                    "(callee summaries cover statically resolved module functions only)"],
 }
 
 PROPS["C20"] = {
@@ -310,8 +311,8 @@ MANIFEST_TEXT.update({
                "ltcred_key (returned key = long-term key of the generated password), ltcred_bad_timestamp, ltcred_expired, ltcred_forgery (honouring other credentials requires an MD5/HMAC collision), ltcred_rest.",
                "DESIGN.md §6 C17", "Lean 4 theorems with the MAC as a parameter + differential correspondence under virtual time with exhaustive single-character mutations"),
     "C18": _mt("lock_checker_sound (for ALL programs: accepted skeleton => no lock held at any exit, no release of an unheld lock), all_functions_balanced over the skeletons regenerated "
-               "from the current source, handlers_guarded (every state-changing call dominated by auth/owner/grant/family/valid guards), addperm_vs_close over all interleavings. "
-               "PARTIAL: Go-memory-model data races and cross-function lock order are outside the model.",
+               "from the current source, guarded_accesses_locked, lock_order_acyclic (no cycle in the regenerated mutex-held -> mutex-taken graph, through statically resolved calls), handlers_guarded (every state-changing call dominated by auth/owner/grant/family/valid guards), addperm_vs_close over all interleavings. "
+               "PARTIAL: Go-memory-model data races and lock order through dynamic calls are outside the model.",
                "DESIGN.md §6 C18", "Lean 4 verified checker (reflection) over skeletons regenerated by a Go translator + slow-callback teardown scenarios",
                "Partial: see assumptions; the translator is trusted to preserve lock/guard/call structure."),
     "C19": _mt("resp_tid_dst on every path, binding_truthful, allocate_truthful (with relay uniqueness), retransmit_idempotent, mismatch_437.",
